@@ -187,8 +187,25 @@ def degenerate_requests(rng, n):
         ub = mk_ub(lattice=(a,), rotvec=(0, 0, 0), n_hkl=None, n_phi=(0, 0, 1), surf_nphi=(0, 0, 1), surf_nhkl=None)
         h, k = rng.uniform(0.1, 0.6), rng.uniform(0.1, 0.6)
         x = rng.choice([0.0, 20.0, rng.uniform(-60, 60), 0.0])
-        fam = rng.choice(["v-eta", "v-free", "h-mu", "h-free", "v-delta", "h-nu", "v-any", "h-any", "v-any", "h-any"])
-        if fam in ("v-any", "h-any"):
+        fam = rng.choice(["v-eta", "v-free", "h-mu", "h-free", "v-delta", "h-nu", "v-any", "h-any", "v-any", "h-any", "v-tidy", "h-tidy", "h-tidy"])
+        if fam in ("v-tidy", "h-tidy"):
+            # exactly the shape the tidy-up acts on: a detector-like constraint, mu (resp. eta) constrained to 0, the other outer axis and phi
+            # free, third constraint a reference one; requested from a degenerate position with chi = 0 (resp. 90) on a slightly turned crystal
+            ax = "mu" if fam == "v-tidy" else "eta"
+            cands = [tr for tr in modes() if ax in tr and any(d in tr for d in ("delta", "nu", "qaz", "naz"))
+                     and not any(o in tr for o in ("phi", "chi", "bisect", "omega", "eta" if ax == "mu" else "mu"))]
+            tr = rng.choice(cands)
+            if fam == "v-tidy":
+                P0 = [0.0, rng.uniform(10, 120), 0.0, rng.uniform(-80, 80), 0.0, rng.uniform(-170, 170)]
+            else:
+                P0 = [rng.uniform(-80, 80), 0.0, rng.uniform(10, 120), 0.0, 90.0, rng.uniform(-170, 170)]
+            ub = mk_ub(lattice=(a,), rotvec=(0, 0, rng.uniform(-1, 1)), n_hkl=None,
+                       n_phi=rng.choice([(0, 0, 1), (1, 0.2, 0.1), (0.3, 1, 0.2)]), surf_nphi=(0, 0, 1), surf_nhkl=None)
+            r = construct_request(rng, ub, tr, P0=P0)
+            if r is not None:
+                ub2, vals, hkl, P = r
+                out.append((ub2, vals, tuple(float(x) for x in hkl), 1.0, fam))
+        elif fam in ("v-any", "h-any"):
             # a degenerate 4-circle position, requested through ANY implemented mode whose three quantities are read off it
             # (incl. omega + bisect, where eta resp. mu is tied without being a named constraint)
             tr = rng.choice(modes())
